@@ -14,6 +14,8 @@ MC_HINIT == {
   << StM(<<2, 1>>, <<2, 1>>, <<1, 2, 1>>, 1, TRUE), StM(<<2, 1>>, <<2, 1>>, <<1, 1, 1>>, 2, TRUE) >>,
   << StT(<<3>>, <<1, 1>>, 1, FALSE), StT(<<1>>, <<1, 1>>, 2, FALSE) >>,
   << StT(<<2, 2, 2>>, <<1, 2, 2, 1>>, 1, TRUE) >> }
+\* thorough: depth 3 from three of the initial heaps (tensor with singleton modes, rectangular operator, complex operator)
+T_HINIT == { h \in MC_HINIT : h[1].I \in {<<2, 1, 3>>, <<2, 3>>, <<2, 1>>} /\ (h[1].k = "ttm" \/ Len(h[1].I) = 3) }
 MC_HOPS == {"add", "sub", "mul", "matmul", "kron", "cat", "neg", "clone", "conj", "t", "to_ttm", "diag", "mul_s", "div_s",
             "add_s", "rsub_s", "sum", "index", "pad", "full", "norm", "sum_all", "numpy", "repr", "set_core", "reduce_dims"}
 =============================================================================
